@@ -400,6 +400,59 @@ def _shard_short(shard: int, nshards: int, maxlen: int) -> Tally:
     return t
 
 
+# ---------------------------------------------------------------------------
+# large payloads: truncation inside length-delimited values whose size is around 2^7, 2^14
+# (length-prefix widths) and 2^16, 2^17 (block sizes a chunked reader is likely to use)
+
+LARGE_TYPES = ["T1_single_bytes", "T1_single_string", "T1_single_msg_Sub", "T1_repeated_bytes", "T1_single_int32"]
+LARGE_SIZES = sorted({2**k + d for k in (7, 14, 16, 17) for d in (-1, 0, 1, 100)})
+
+
+def large_encoding(tname: str, size: int) -> bytes:
+    u = U()
+    m = u.schema.msg(tname)
+    f = m.fields[0]
+    if tname == "T1_single_int32":
+        # the long value sits in a field this class does not know
+        return wire.make_rec(f.number, wire.VARINT, 1).raw + wire.make_rec(77, wire.LEN, b"u" * size).raw
+    if f.base == "msg":
+        return wire.make_rec(f.number, wire.LEN, wire.make_rec(2, wire.LEN, b"s" * size).raw).raw
+    return wire.make_rec(f.number, wire.LEN, b"x" * size).raw
+
+
+def large_cuts(n: int) -> List[int]:
+    cuts = set(range(0, 16)) | set(range(max(0, n - 130), n))
+    for k in range(7, 18):
+        for d in range(-3, 4):
+            cuts.add(2**k + d)
+    return sorted(c for c in cuts if 0 <= c < n)
+
+
+def _shard_large(shard: int, nshards: int, extra) -> Tally:
+    limit_memory(2.0)
+    t = Tally()
+    i = 0
+    seen_sig = set()
+    for tname in LARGE_TYPES:
+        for size in LARGE_SIZES:
+            data = large_encoding(tname, size)
+            for cut in large_cuts(len(data)) + [len(data)]:
+                i += 1
+                if i % nshards != shard:
+                    continue
+                t.inc("evaluations")
+                t.inc("nontrivial_large")
+                t.mark("fault_kinds", "truncate-large")
+                for oracle, detail in judge(tname, data[:cut], t, cut == len(data)):
+                    sig = sig_for(tname, oracle, "truncate-large")
+                    if tuple(sig) in seen_sig:
+                        continue
+                    seen_sig.add(tuple(sig))
+                    t.violate(Violation(sig, f"{tname} payload of {size} bytes cut at {cut}/{len(data)}: {detail}"[:400],
+                                        {"part": "large", "type": tname, "size": size, "cut": cut}), cap_per_sig=1)
+    return t
+
+
 def run(ctx: Ctx) -> None:
     # the same address-space limit in the parent (replays) and in the workers: a decoded
     # garbage length such as bytes(3_000_000_000) must fail the same way in both
@@ -408,13 +461,15 @@ def run(ctx: Ctx) -> None:
     _U["bases"] = base_cases()
     t1 = merge_tallies(pmap_shards(_shard_faults, 64, None))
     t2 = merge_tallies(pmap_shards(_shard_short, 64, 2 if ctx.quick else 3))
-    t = merge_tallies([t1, t2])
+    t3 = merge_tallies(pmap_shards(_shard_large, 64, None))
+    t = merge_tallies([t1, t2, t3])
     for vj in t.violations:
         ctx.add(Violation.from_json(vj))
     agree = {k: v for k, v in t.n.items() if k.startswith("agree_")}
     ctx.coverage.update(
         evaluations=t.n.get("evaluations", 0),
-        distinct_nontrivial=len(t.sets.get("nontrivial", ())) + t.n.get("nontrivial_short", 0),
+        distinct_nontrivial=len(t.sets.get("nontrivial", ())) + t.n.get("nontrivial_short", 0) + t.n.get("nontrivial_large", 0),
+        large_payload_cuts=t.n.get("nontrivial_large", 0),
         rule="faults enumerated completely per valid encoding: every truncation point, every tag/length "
              "byte x {8 single-bit flips, 00, 7f, 80, ff}, a well-formed record of every other wire type "
              "(0,1,2,5,6,7) before/after, groups around known-looking content, declared-length "
@@ -442,6 +497,10 @@ def replay(case: dict) -> List[Violation]:
     limit_memory(2.0)
     U()
     t = Tally()
+    if case.get("part") == "large":
+        data = large_encoding(case["type"], case["size"])
+        return [Violation(sig_for(case["type"], o, "truncate-large"), d, case)
+                for o, d in judge(case["type"], data[:case["cut"]], t, case["cut"] == len(data))]
     data = bytes.fromhex(case["hex"])
     keep = bytes.fromhex(case["must_keep"]) if case.get("must_keep") else None
     out = []
